@@ -262,7 +262,7 @@ convert(struct func *f, struct type *dst, struct type *src, struct value *l)
 	struct value *r = NULL;
 	int class;
 
-	if (src->kind == TYPEPOINTER)
+	if (src->kind == TYPEPOINTER || src->kind == TYPENULLPTR)
 		src = &typeulong;
 	if (dst->kind == TYPEPOINTER)
 		dst = &typeulong;
